@@ -3,10 +3,14 @@
 // re-stamped on open / on an idle read-write session only become visible when the clock has moved on).
 #include <ctime>
 #include <time.h>
-namespace vm { long g_clock_skew = 0; void advance_clock(long secs) { g_clock_skew += secs; } }
+#include <cstdlib>
+namespace vm { long g_clock_skew = 0; long g_clock_pinned = 0; void advance_clock(long secs) { g_clock_skew += secs; } void pin_clock(long t) { g_clock_pinned = t; } }
+// VERIF_PIN_TIME=<epoch seconds> in the environment freezes the clock of a freshly exec'ed process (C12: processes
+// that start "within the same second", made deterministic)
 extern "C" time_t time(time_t *out) {
+    static bool env_read = false; if (!env_read) { env_read = true; const char *e = getenv("VERIF_PIN_TIME"); if (e && *e) vm::g_clock_pinned = atol(e); }
     struct timespec ts; clock_gettime(CLOCK_REALTIME, &ts);
-    time_t t = ts.tv_sec + vm::g_clock_skew;
+    time_t t = (vm::g_clock_pinned ? vm::g_clock_pinned : ts.tv_sec) + vm::g_clock_skew;
     if (out) *out = t;
     return t;
 }
